@@ -4024,14 +4024,20 @@ impl<'a> ZonedDifference<'a> {
                     )
                 })?
                 .to_datetime(dt1.time());
-            let zmid: Zoned =
+            // When the intermediate datetime is the civil datetime of `zdt1`
+            // itself, then its instant is that of `zdt1`. Resolving it again
+            // could pick the other instant when `zdt1` is in a fold.
+            let zmid: Zoned = if mid == dt1 {
+                zdt1.clone()
+            } else {
                 mid.to_zoned(tz.clone()).with_context(|| {
                     err!(
                         "failed to convert intermediate datetime {mid} \
                          to zoned timestamp in time zone {tz}",
                         tz = tz.diagnostic_name(),
                     )
-                })?;
+                })?
+            };
             if t::sign(zdt2, &zmid) != -sign {
                 break (mid, zmid);
             }
